@@ -455,7 +455,7 @@ fn run_fn<F: MathFunction + Function<Trace = fidget_core::vm::VmTrace>>(
         .eval(&ft, &cols)
         .map_err(|e| Fail::new("eval-error", format!("{e:?}")))?;
     ensure!(
-        o.len() == nroots,
+        o.len() == nroots && o.is_empty() == (nroots == 0),
         format!("bulk-output-count-{what}"),
         "{what}: float slice eval returned {} arrays for {nroots} outputs",
         o.len()
@@ -479,7 +479,7 @@ fn run_fn<F: MathFunction + Function<Trace = fidget_core::vm::VmTrace>>(
         .eval(&gt, &gcols)
         .map_err(|e| Fail::new("eval-error", format!("{e:?}")))?;
     ensure!(
-        o.len() == nroots,
+        o.len() == nroots && o.is_empty() == (nroots == 0),
         format!("bulk-output-count-{what}"),
         "{what}: grad slice eval returned {} arrays for {nroots} outputs",
         o.len()
